@@ -55,7 +55,7 @@ RULE = ('case = (manager key, 1-3 base objects + 0-3 late objects of type list/d
         '0-2 wrong-key clients of five kinds, short I/O, pipe capacity, policy); distinct = distinct (workload hash, '
         'schedule fingerprint); non-trivial = >= 2 actors interleaved at a decision and (an object was operated on '
         'by >= 2 threads, or a proxy life-cycle operation or a wrong-key attempt took place)')
-PROBES = ['two_server_threads_in_one_referent', 'decref_to_zero_while_other_increfs', 'proxy_rebuilt_in_child',
+PROBES = ['second_proxy_through_create', 'proxy_regained_by_name', 'two_server_threads_in_one_referent', 'decref_to_zero_while_other_increfs', 'proxy_rebuilt_in_child',
           'proxy_pickled_copy', 'remote_exception_reraised', 'wrong_key_refused', 'blocking_call_blocked_in_server',
           'dropped_to_zero', 'late_create', 'nonexposed_refused', 'drop_needed_gc',
           'shared_object_concurrent_ops', 'hostile_raw_refused']
@@ -302,6 +302,30 @@ class EventModel:
             return ('ok', self.flag)
         self.flag = method == 'set'
         return ('ok', None)
+
+
+_CUR = {}
+
+
+def _existing(ident):
+    """Server side: the referent that already lives under `ident` (a callable that hands out an existing
+    object, as in the remote-manager recipe of the documentation)."""
+    ent = _CUR['srv'].id_to_obj.get(ident)
+    if ent is not None:
+        return ent[0]
+    return _CUR['keep'][ident]      # the application's own object outlives the server's bookkeeping of it
+
+
+def _ensure_getters(M):
+    reg = M.SyncManager._registry
+    for typeid in sorted(reg):
+        if typeid.startswith('again_') or ('again_' + typeid) in reg:
+            continue
+        _callable, exposed, method_to_typeid, proxytype = reg[typeid]
+        if proxytype is None:
+            continue
+        M.SyncManager.register('again_' + typeid, callable=_existing, proxytype=proxytype, exposed=exposed,
+                               method_to_typeid=method_to_typeid)
 
 
 def typeid_of(spec):
@@ -623,11 +647,27 @@ def generate(rng, tier, prop='C20'):
                     slot = 'c%d' % nslot[0]
                     live[slot] = live[src]
                     prog.append(['copy', src, slot])
-                elif r < 0.36 and live:
+                elif r < 0.29 and live:
+                    # a second proxy for the SAME server-side object, obtained from the manager through a
+                    # registered callable that returns the existing object (register('get_x', callable=lambda: x))
+                    src = rng.choice(sorted(live))
+                    nslot[0] += 1
+                    slot = 'g%d' % nslot[0]
+                    live[slot] = live[src]
+                    prog.append(['again', src, slot])
+                elif r < 0.33:
+                    # a proxy for an object this thread may hold no proxy of any more, asked for by name (the
+                    # callable returns the application's object): races with the last release elsewhere
+                    oid = rng.randrange(nbase)
+                    nslot[0] += 1
+                    slot = 'r%d' % nslot[0]
+                    live[slot] = oid
+                    prog.append(['regain', slot, oid])
+                elif r < 0.40 and live:
                     slot = rng.choice(sorted(live))
                     del live[slot]
                     prog.append(['drop', slot])
-                elif r < 0.42:
+                elif r < 0.45:
                     prog.append(['tick', rng.randint(1, 3)])
                 elif usable:
                     slot = rng.choice(usable)
@@ -641,9 +681,22 @@ def generate(rng, tier, prop='C20'):
         for _ in range(rng.randint(1, 2)):
             bad.append({'kind': rng.choice(['connect', 'client', 'proxy', 'raw_noauth', 'raw_ignore_verdict']),
                         'key': _bad_key(rng, key).hex(), 'delay': rng.randint(0, 12), 'v': uniq()})
-    return {'key': key.hex(), 'objects': objects, 'clients': clients, 'bad': bad,
+    focus = None
+    if rng.random() < 0.12:
+        # the last proxy of an object is released by one thread while another asks the manager for the same
+        # (application-owned) object again
+        focus = 'decref-window'
+        objects = objects[:1]
+        objects[0]['late'] = False
+        op = _gen_call(rng, objects[0], uniq, pools[0])
+        clients = [{'parent': None, 'objs': [0], 'how': 'spawn', 'threads': [
+            [['tick', rng.randint(0, 4)], ['drop', 'o0'], ['tick', 1]],
+            [['drop', 'o0'], ['tick', rng.randint(0, 4)], ['regain', 'r1', 0], [op[0], 'r1', op[1], op[2]]]]}]
+        bad = []
+    return {'key': key.hex(), 'objects': objects, 'clients': clients, 'bad': bad, 'focus': focus,
             'short_io': rng.random() < 0.3, 'pipe_cap': rng.choice([256, 4096, 65536]),
-            'keep_tb': rng.random() < 0.3, 'policy': rng.choice(POLICIES)}
+            'keep_tb': rng.random() < 0.3, 'policy': rng.choice(POLICIES),
+            'line_prob': rng.choice([0, 0, 0.15, 0.4])}
 
 
 def shrink(case):
@@ -755,6 +808,13 @@ def execute(case, seed, choices=None):
                           'pipe_cap': case.get('pipe_cap', 65536), 'short_io': case.get('short_io', False)},
                    choices)
     seams_mgr.install_mgr()
+    if case.get('focus') == 'decref-window':
+        # the window between the last decrement of a referent's count and its disposal
+        k.enable_func_preemption(('billiard/managers.py',), ('decref',), 0.7, 0.9)
+    elif case.get('line_prob'):
+        # a server thread can lose the processor between any two lines of the reference-counting code
+        k.enable_func_preemption(('billiard/managers.py',), ('create', 'incref', 'decref', '_incref', '_decref'),
+                                 case['line_prob'])
     import hmac
     import billiard.managers as M
     import billiard.connection as C
@@ -795,6 +855,9 @@ def execute(case, seed, choices=None):
     # ------------------------------------------------------------------ proxy bookkeeping (ground truth)
     def reg_proxy(p, oid):
         ident = p._token.id
+        ent = flags['srv'].id_to_obj.get(ident) if flags.get('srv') is not None else None
+        if ent is not None and 'keep' in _CUR:
+            _CUR['keep'].setdefault(ident, ent[0])
         if idents[oid] is None:
             idents[oid] = ident
             prev = ident_seen.get(ident)
@@ -921,6 +984,25 @@ def execute(case, seed, choices=None):
                 take(table, soid, slot, p, op[2])
                 del p
                 continue
+            if kind == 'regain':
+                tok = tokens.get(op[2]) if isinstance(tokens, dict) else tokens[op[2]]
+                if tok is None:
+                    continue
+                stats['lifecycle'] += 1
+                tid = tok[0]
+                while tid.startswith('again_'):
+                    tid = tid[6:]
+                try:
+                    p2 = getattr(m, 'again_' + tid)(tok[2])
+                except Exception as exc:        # noqa
+                    bad('C20.c', 'lifecycle-op-failed:regain:%s' % type(exc).__name__, '%s: %r' % (who, exc))
+                    continue
+                k.probe('proxy_regained_by_name')
+                k.record('regain', who, op[2])
+                reg_proxy(p2, op[2])
+                take(table, soid, slot, p2, op[2])
+                del p2
+                continue
             if slot not in table:
                 continue
             if kind in ('call', 'nonexp'):
@@ -949,6 +1031,27 @@ def execute(case, seed, choices=None):
                 reg_proxy(p2, soid[slot])
                 take(table, soid, dst, p2, soid[slot])
                 del p2
+            elif kind == 'again':
+                dst = op[2]
+                stats['lifecycle'] += 1
+                src_p = table[slot]
+                try:
+                    tid = src_p._token.typeid
+                    while tid.startswith('again_'):
+                        tid = tid[6:]
+                    p2 = getattr(m, 'again_' + tid)(src_p._token.id)
+                except Exception as exc:        # noqa
+                    bad('C20.c', 'lifecycle-op-failed:again:%s' % type(exc).__name__, '%s: %r' % (who, exc))
+                    continue
+                if not isinstance(p2, M.BaseProxy) or p2._token.id != src_p._token.id:
+                    bad('C20.c', 'again-not-the-same-referent', '%s: got %r for %r' % (who, getattr(p2, '_token', p2),
+                                                                                      src_p._token))
+                    continue
+                k.probe('second_proxy_through_create')
+                k.record('again', who, soid[slot])
+                reg_proxy(p2, soid[slot])
+                take(table, soid, dst, p2, soid[slot])
+                del p2, src_p
             elif kind == 'drop':
                 k.record('drop', who, soid[slot])
                 drop(table, slot)
@@ -956,9 +1059,12 @@ def execute(case, seed, choices=None):
 
     # ------------------------------------------------------------------ processes
     def server_main():
+        _ensure_getters(M)
         srv = _traced_server_class(M)(M.SyncManager._registry, ADDR, key, 'pickle')
         srv._harness = harness
         flags['srv'] = srv
+        _CUR['srv'] = srv
+        _CUR['keep'] = {}
         try:
             srv.serve_forever()
         except SystemExit:
